@@ -276,6 +276,7 @@ recurseTail:
 				}
 			}
 			obj = o[len(o)-1]
+			execProc = false
 			goto recurseTail
 		} else {
 			intp.Stack = append(intp.Stack, o)
